@@ -825,7 +825,7 @@ def stub_cases(rng, thorough=False):
         add("unsupported", kind, F.unary, kind)
 
     # ---- random fill: joint perturbations ------------------------------------------------------------------------
-    nrand = 2500 if thorough else 500
+    nrand = 6000 if thorough else 800
     for i in range(nrand):
         r = rng.random()
         ch = lambda xs: rng.choice(xs)  # noqa: E731
